@@ -145,13 +145,13 @@ example : declaredOf [[2,2],[2,2],[2,2],[2,2]]
     [((0,1),(1,0)), ((0,3),(1,2)),  ((2,1),(3,0)), ((2,3),(3,2)),
      ((0,2),(2,0)), ((0,3),(2,1)),  ((1,2),(3,0)), ((1,3),(3,1))] := by decide
 
-/-- on histories without a join that meets two existing classes the pinned source and the repaired
+/-- on histories without a join that meets two existing classes the original source and the repaired
 algorithm compute the same tables -/
 theorem asCoded_eq_repaired_of_noMeet (L : List (Dof × Dof)) (h : noMeet State.init L = true) :
     runPairs Cfg.asCoded State.init L = runPairs Cfg.repaired State.init L :=
   (runPairs_noMeet L State.init h (fun _ hk => by simp [State.init] at hk)).1
 
-/-- **glue_spec_partial** (pinned source): the property holds for every history in which no join
+/-- **glue_spec_partial** (original source, before ddfa3af): the property holds for every history in which no join
 meets two already-shared dofs with different shared ids (e.g. the order produced by
 `detect_interfaces` for grid-like complexes). -/
 theorem glue_spec_partial (P : Nat) (N : Nat → Nat) (L : List (Dof × Dof)) (hval : ValidPairs P N L)
@@ -167,7 +167,7 @@ theorem glue_spec_partial (P : Nat) (N : Nat → Nat) (L : List (Dof × Dof)) (h
   rw [e]
   exact glued_of_invariants (G := ⟨P, N, runPairs Cfg.repaired State.init L⟩) hI hS hC hne hV
 
-/-! ### the pinned source does not satisfy the full statement (defect D10) -/
+/-! ### the original source does not satisfy the full statement (defect D10) -/
 
 /-- 2×2 patches with 2×2 dofs each; `join_boundaries` in the order (0,1), (2,3), (0,2), (1,3):
 right/left faces are dofs `[1,3]`/`[0,2]`, top/bottom faces `[2,3]`/`[0,1]`. -/
@@ -186,9 +186,9 @@ example : noMeet State.init witnessD10 = false := by decide
 example : (globOf Cfg.asCoded 4 (fun _ => 4) witnessD10).numdofs = 10 := by decide
 example : (globOf Cfg.repaired 4 (fun _ => 4) witnessD10).numdofs = 9 := by decide
 
-/-- **¬ glue_spec for the pinned source**: on the cross-point history the numbering has a gap
+/-- **¬ glue_spec for the original source**: on the cross-point history the numbering has a gap
 (global index 6 — the phantom class `{(2,1),(3,0)}` — is taken by no dof; `numdofs = 10` for 9
-classes).  Replayed on the implementation by the harness. -/
+classes).  The repaired code (ddfa3af) is checked against `Cfg.repaired`; a regression is recognised by the harness as this defect. -/
 theorem glue_spec_asCoded_false : ¬ GlueSpec Cfg.asCoded := by
   intro H
   obtain ⟨_, _, hs⟩ := H 4 (fun _ => 4) witnessD10 witnessD10_valid
@@ -210,7 +210,7 @@ example : (List.range 4).map (fun p => (List.range 4).map ((globOf Cfg.repaired 
 
 /-! ### a patch without shared dofs -/
 
-/-- the pinned `patch_to_global_idx` raises for a patch that takes part in no join (also for a
+/-- the original `patch_to_global_idx` (before 4c8c872) raised for a patch that takes part in no join (also for a
 single-patch `Multipatch`); with fixes/C14-unshared-patch.patch it returns the numbering that
 `glue_spec` is about. -/
 theorem unshared_patch_asCoded_raises :
